@@ -1,4 +1,71 @@
+//! E-AN / E-HS: seeded operation histories and hash-seed sweeps against the analysis library.
+//!   an-sim check --prop C09 [--tier quick|thorough] [--runs N]
+//!   an-sim replay --file F        an-sim one --prop C08 --index 3 [-v]
+
+mod hist;
+mod observe;
+mod ws;
+
+use serde_json::{Map, Value};
+use simcore::driver::{CaseReport, Engine};
+
 simcore::define_getrandom!();
+
+struct An;
+
+impl Engine for An {
+    fn engine_name(&self) -> &'static str {
+        "E-AN"
+    }
+    fn generate(&self, prop: &str, seed: u64) -> Value {
+        match prop {
+            "C08" | "C09" | "C10" => serde_json::to_value(hist::generate(prop, seed)).unwrap(),
+            _ => Value::Null,
+        }
+    }
+    fn run(&self, prop: &str, spec: &Value, verbose: bool) -> CaseReport {
+        match prop {
+            "C08" | "C09" | "C10" => hist::run(prop, spec, verbose),
+            _ => CaseReport { error: Some(format!("unknown property {prop}")), ..Default::default() },
+        }
+    }
+    fn shrink(&self, prop: &str, spec: &Value) -> Vec<Value> {
+        match prop {
+            "C08" | "C09" | "C10" => hist::shrink(spec),
+            _ => vec![],
+        }
+    }
+    fn default_runs(&self, _prop: &str, tier: &str) -> u64 {
+        if tier == "thorough" { 200_000 } else { 1500 }
+    }
+    fn rule(&self, prop: &str) -> String {
+        match prop {
+            "C08" => "one evaluation = one generated workspace (2-7 interacting files) fully analysed and reindexed, then a history of unchanged re-submissions (single, batch in seeded order) and edit-then-restore pairs, with the full observation (diagnostics, per-token types and declarations, references, hover docs, type declarations, members, globals, module resolution) and every index container size compared with the pre-history state after every step; non-trivial = history non-empty and >=2 files; distinct = distinct digests of the observation sequence".into(),
+            "C09" => "one evaluation = one generated workspace with a history of 3-24 updates / batches / removals (three removal paths) / config changes / reindexes, then reindex(), compared with a brand-new analysis of the surviving files (same order, same final config), with and without a reindex of the reference; non-trivial = history non-empty and >=2 files; distinct = distinct observation digests".into(),
+            "C10" => "one evaluation = one generated workspace, optional edits, then removal of a seeded subset through the three removal paths; checked: no query result names a removed file, after reindex the observation equals a fresh analysis of the survivors, removing everything returns every index container to the empty-workspace baseline, 4 add+remove cycles hold no more state than 1; non-trivial = >=2 files and >=1 removal; distinct = distinct observation digests".into(),
+            _ => String::new(),
+        }
+    }
+    fn assumptions(&self, _prop: &str) -> Vec<String> {
+        vec![
+            "histories are single-threaded (no thread or task is created in emmylua_code_analysis); the only nondeterminism is hash iteration order, pinned per run by the hash-seed seam".into(),
+            "a case whose outcome differs between hash seeds is counted and excluded (it is C11's subject)".into(),
+            "observation goes through public query APIs plus the feature-gated size report (hook H2)".into(),
+        ]
+    }
+    fn extra_coverage(&self, _prop: &str) -> Map<String, Value> {
+        let mut m = Map::new();
+        m.insert("real_components".into(), serde_json::json!(["EmmyLuaAnalysis", "LuaCompilation / analyzers", "DbIndex and every index", "Vfs and parser", "LuaDiagnostic checkers", "SemanticModel queries"]));
+        m.insert("stubbed_components".into(), serde_json::json!(["file system (paths are virtual; no disk access in these operations)", "std library (not loaded)"]));
+        m
+    }
+    fn warm_up(&self) {
+        let spec = self.generate("C09", 0x5eed_0009);
+        let _ = self.run("C09", &spec, false);
+    }
+}
+
 fn main() {
-    println!("an-sim: not built yet");
+    simcore::panics::install_quiet_hook();
+    std::process::exit(simcore::driver::main_dispatch(&An));
 }
